@@ -12,3 +12,5 @@ CONSTANTS
   MayPause = FALSE
   StopOnAckFailure = TRUE
   RetryAfterPause = FALSE
+  MayStale = FALSE
+  ExitFlushes = TRUE
